@@ -718,6 +718,32 @@ def main(argv):
         "spec_cross_run_pairs": len(spec_idx), "spec_vs_transcription_mismatches": len(smism),
         "literal_form_pairs": len(lit_idx),
     }
+    # ---- aliasing: an operator applied to ONE binding on both sides gives what it gives on the same value
+    # written out twice (a shortcut on heap identity is wrong as soon as a NaN sits inside)
+    ALIAS_VALUES = ["[[0 / 0], [1]]", "[0 / 0]", "[1, [2, 0 / 0]]", "[{a: 0 / 0}]", "[1, 2, 3]", "[[1], [2]]", "[null, 1]",
+                    '["a", [0 / 0]]', "[[]]", "[]", "{k: 0 / 0}", "0 / 0", "[0, -0]"]
+    ALIAS_OPS = ["==", "!=", ".==", ".!=", "<=", ">=", "+", "&&", "??"]
+    alines, ameta = [], []
+    for vs in ALIAS_VALUES:
+        for op in ALIAS_OPS:
+            alines.append(c.hexs("%s %s %s" % (vs, op, vs)))
+            alines.append(c.hexs("x9 = %s\nx9 %s x9" % (vs, op)))
+            alines.append(c.hexs("x9 = %s\n((p9) => p9 %s p9)(x9)" % (vs, op)))
+            ameta.append((vs, op))
+    aouts = c.harness_lines_resilient(h, "eval", alines)
+    alias_fail = 0
+    for k, (vs, op) in enumerate(ameta):
+        ref = aouts[3 * k].split(";ENV:")[0].split("|")[-1]
+        for j, how in ((1, "x9 = %s\nx9 %s x9" % (vs, op)), (2, "x9 = %s\n((p9) => p9 %s p9)(x9)" % (vs, op))):
+            got = aouts[3 * k + j].split(";ENV:")[0].split("|")[-1]
+            if got != ref:
+                alias_fail += 1
+                if alias_fail <= 3:
+                    res.violation("an operator gives a different result when both operands are the same binding than "
+                                  "for the same value written twice",
+                                  {"kind": "impl-law", "program": how, "reference_program": "%s %s %s" % (vs, op, vs),
+                                   "observed": got, "expected": ref})
+    res.streams["alias"] = {"values": len(ALIAS_VALUES), "operators": len(ALIAS_OPS), "failures": alias_fail}
     res.streams["impl-law-search"] = {
         "element_table_pairs": len(tpairs), "law_instances_checked": law_checked, "law_failures": law_fail,
         "scalar_reference_checked": sc_checked, "scalar_reference_failures": sc_fail, "crashes": crashes,
